@@ -3,6 +3,7 @@ package ice
 // C05 — role conflicts resolve by tie-breaker (RFC 8445 §7.3.1.1).
 
 import (
+	"context"
 	"net/netip"
 
 	"github.com/pion/stun/v3"
@@ -12,6 +13,7 @@ func init() {
 	verifRegister("verifC05RoleConflict", verifC05RoleConflict)
 	verifRegister("verifC05Pairwise", verifC05Pairwise)
 	verifRegister("verifC05Late487", verifC05Late487)
+	verifRegister("verifC05RoleAtStart", verifC05RoleAtStart)
 }
 
 func verifC05RoleConflict() {
@@ -21,6 +23,9 @@ func verifC05RoleConflict() {
 	w.pairAll()
 	a := w.a
 	a.tieBreaker = verifU64()
+	// any candidate priorities (the tie bit of the pair priority depends on which is greater)
+	w.locals[0].priorityOverride = uint32(verifInt(1, 1<<31-1))
+	verifBaseOf(w.remotes[0]).priorityOverride = uint32(verifInt(1, 1<<31-1))
 	// arbitrary pair state, bookkeeping and selection: a conflict must leave all of it alone
 	for _, p := range a.checklist {
 		p.state = CandidatePairState(verifInt(1, 4))
@@ -54,8 +59,27 @@ func verifC05RoleConflict() {
 
 	before := w.snap()
 	selBefore := a.selector
+	prioBefore := make([]uint64, len(a.checklist))
+	for i, p := range a.checklist {
+		prioBefore[i] = p.priority() // (the pair priorities have been read before: ordering the checklist does that)
+	}
 	a.handleInbound(msg, w.locals[0], src)
 	after := w.snap()
+	// the pair priority is the RFC 8445 formula for the CURRENT role at every
+	// moment, before and after a switch (the peer computes the mirrored value)
+	for i, p := range a.checklist {
+		if i < len(prioBefore) {
+			g, d := uint64(p.Local.Priority()), uint64(p.Remote.Priority())
+			if !after.controlling {
+				g, d = d, g
+			}
+			mn, mx, gt := g, d, uint64(0)
+			if d < g {
+				mn, mx, gt = d, g, 1
+			}
+			verifAssert(p.priority() == (1<<32-1)*mn+2*mx+gt, "pair-priority=formula-for-the-current-role,also-after-a-switch")
+		}
+	}
 
 	// oracle: which role does the request claim (ICE-CONTROLLING wins when both are present)
 	claimsControlling := ctrl == 1 || ctrl == 3
@@ -187,5 +211,41 @@ func verifC05Late487() {
 	after := w.snap()
 	verifAssert(after.controlling == before.controlling && a.selector == selBefore, "an-error-response-never-changes-the-role")
 	verifAssert(verifNothingChanged(before, after), "an-error-response-changes-nothing")
+	verifReach("done")
+}
+
+// The role an agent is started in reaches the pairs that exist already:
+// candidates may be exchanged before Dial/Accept, so pairs are formed while the
+// agent still has its default role. Once the connectivity checks start, every
+// listed pair computes its priority for the started role — the value the peer
+// computes for the mirrored pair (RFC 8445 §6.1.2.3: G is the controlling
+// agent's candidate priority on both sides).
+func verifC05RoleAtStart() {
+	w := verifNewWorld(false, false, 1, 1) // a fresh agent: the default role, not started
+	a := w.a
+	a.loop = verifLoop()
+	w.locals[0].priorityOverride = uint32(verifInt(1, 1<<31-1))
+	verifBaseOf(w.remotes[0]).priorityOverride = uint32(verifInt(1, 1<<31-1))
+	w.pairAll()
+	controlling := verifChoice(2) == 1
+	startedCtx, startedFn := context.WithCancel(context.Background())
+	a.startedCh, a.startedFn = startedCtx.Done(), startedFn
+	err := a.startConnectivityChecks(controlling, verifRemoteUfrag, verifRemotePwd)
+	verifAssert(err == nil, "start")
+	verifAssert(a.isControlling.Load() == controlling, "started-role")
+	for _, p := range a.checklist {
+		g, d := uint64(p.Local.Priority()), uint64(p.Remote.Priority())
+		if !controlling {
+			g, d = d, g
+		}
+		mn, mx, gt := g, d, uint64(0)
+		if d < g {
+			mn, mx, gt = d, g, 1
+		}
+		verifAssertKnown(p.priority() == (1<<32-1)*mn+2*mx+gt, "pairs-formed-before-the-start-compute-their-priority-for-the-started-role", "C17-pairs-formed-before-start-keep-default-role", controlling)
+	}
+	if controlling {
+		verifReach("started-controlling")
+	}
 	verifReach("done")
 }
